@@ -102,13 +102,18 @@ def eval_t(job):
 def run(tier: str) -> int:
     chk = Check("C01", tier, "model_checking")
     bound = (5, 3) if tier == "quick" else (6, 4)
-    chk.rule = (f"family S: every realisable document of spec/RenderRead.tla with <= {bound[0]} nodes / depth <= {bound[1]} x 2 option sets; "
+    chk.rule = (f"family S: every realisable document of spec/RenderRead.tla with <= {bound[0]} nodes / depth <= {bound[1]} (and <= {4 if tier == 'quick' else 5} nodes with tables and rules) x 2 option sets; "
                 "family T: 8 container paths x 30 structure-looking words at every non-initial position of 4-5 word paragraphs x 5 widths x "
                 "{fill, semantic}; non-trivial = distinct realisable document with a container, or a T case whose output has >= 2 lines")
     chk.assumptions = ["projections harness/project.py (marko as configured by flowmark, markdown-it with html_block off) are the trusted readers",
                        "a source text is used only if both parsers read the same block structure from it (else discarded as ambiguous)"]
     model, mres = docs.model_docs(*bound)
     chk.add_tlc(mres)
+    # second instance of the model: the full leaf alphabet (tables, thematic breaks) at a smaller bound
+    bound2 = (4, 3) if tier == "quick" else (5, 3)
+    model2, mres2 = docs.model_docs(*bound2, leafs={"P", "H", "B", "C", "T", "R"})
+    chk.add_tlc(mres2)
+    model = {**model2, **model}
     # ---- family S ----
     jobs, seen = [], set()
     import harness.docgen as dg
